@@ -128,3 +128,33 @@ Proof.
     + unfold capacity_ho_check. apply forallb_forall. intros t1 Ht. destruct (placed_in I p t1) eqn:Pt; [|reflexivity]. cbn [negb orb].
       apply forallb_forall. intros wi Hw. apply forallb_forall. intros rq Hrq. specialize (H3 t1 wi rq Ht Pt Hw Hrq). lia.
 Qed.
+
+(* ------------------------------------------------------------------ the hypothesis monitor: dep_linkedb decides (a sufficient condition for) dep_linked *)
+Lemma nodup_map_inj : forall (l : list task) x y, NoDup (map t_id l) -> In x l -> In y l -> t_id x = t_id y -> x = y.
+Proof.
+  induction l as [|z l IH]; intros x y Hnd Hx Hy E; [contradiction|]. cbn [map] in Hnd. inversion Hnd as [|? ? Hz Hnd']; subst.
+  destruct Hx as [->|Hx], Hy as [->|Hy].
+  - reflexivity.
+  - exfalso. apply Hz. apply in_map_iff. exists y. split; [lia|exact Hy].
+  - exfalso. apply Hz. apply in_map_iff. exists x. split; [lia|exact Hx].
+  - apply IH; assumption.
+Qed.
+Lemma linkedb_linked : forall I, nodup_ids I -> forall fuel x y, In x (i_tasks I) -> In y (i_tasks I) ->
+  linkedb fuel I x y = true -> linked I x y.
+Proof.
+  intros I Hn. induction fuel as [|f IH]; intros x y Hx Hy H; [discriminate|]. cbn [linkedb] in H.
+  apply andb_true_iff in H. destruct H as [Ry H]. apply negb_true_iff in Ry.
+  assert (Hyn : In y (nonrunning I)) by (apply in_nonrunning; auto).
+  apply existsb_exists in H. destruct H as (z & Hz & E).
+  assert (Hzin : In z (i_tasks I)) by (unfold decided_parents in Hz; apply filter_In in Hz; tauto).
+  apply orb_true_iff in E. destruct E as [E|E].
+  - assert (z = x) by (apply (nodup_map_inj (i_tasks I)); [exact Hn|exact Hzin|exact Hx|lia]). subst z.
+    apply linked_step; assumption.
+  - eapply linked_trans; [apply IH; [exact Hx|exact Hzin|exact E]|exact Hyn|exact Hz].
+Qed.
+Theorem dep_linkedb_sound : forall I, nodup_ids I -> dep_linkedb I = true -> dep_linked I.
+Proof.
+  intros I Hn H x y Hx Hy D. unfold dep_linkedb in H. rewrite forallb_forall in H.
+  specialize (H (x, y) (in_prod _ _ _ _ Hx Hy)). cbn [fst snd] in H. rewrite D in H. cbn [negb orb] in H.
+  apply orb_true_iff in H. destruct H as [H|H]; [left|right]; eapply linkedb_linked; eassumption.
+Qed.
